@@ -2,7 +2,7 @@
    The model is Raft/Core.v (every handler of pkg/raft/raft transcribed, each log.Fatalf an explicit outcome), tied to the
    Go code on every run by the correspondence of Raft/Wire.v.run_case with the real `core` objects. *)
 From Coq Require Import List NArith ZArith.
-From BLB Require Import Raft.Core C02.Proofs.
+From BLB Require Import Lib.LTS Raft.Core Raft.Wire Raft.NodeElect Raft.Election Raft.ElectionExample C02.Proofs.
 Import ListNotations.
 Open Scope N_scope.
 
@@ -29,3 +29,41 @@ Theorem vote_once_per_term :
     p_term (n_p s') = p_term (n_p s) -> p_vote (n_p s) <> 0 -> p_vote (n_p s') = p_vote (n_p s).
 Proof. exact vote_once_per_term_lemma. Qed.
 Print Assumptions vote_once_per_term.
+
+(* [FULL] clause 1, election safety for a fixed membership of any size: in every run of the system of Raft/Election.v - any number of
+   nodes with distinct non-empty ids, any interleaving of the events of Core.run_event on any node (bootstrap, delivery of
+   any message ever sent to any node any number of times or never, ticks, proposals, snapshots, restarts), each event
+   with or without a crash right after any of its durable mutations followed by newCore - in which every configuration a
+   node holds has as many members as there are nodes, two nodes recorded as leader of the same term are the same node *)
+Theorem election_safety :
+  forall (σ0 σ : sys) (sched : list sys_event),
+    sinit (quorum_of (map n_id (sy_nodes σ0))) σ0 ->
+    run sys sys_event (sstep (quorum_of (map n_id (sy_nodes σ0)))) σ0 sched σ ->
+    forall t a b, In (t, a) (sy_hist σ) -> In (t, b) (sy_hist σ) -> a = b.
+Proof. exact election_safety_sys. Qed.
+Print Assumptions election_safety.
+
+(* [FULL] non-vacuity of election_safety: a concrete run (bootstrap, time-out, self-election, restart, a tick that crashes after
+   its second durable mutation) satisfies every hypothesis and records a leader *)
+Theorem election_safety_nonvacuous :
+  exists σ0 sched σ t a,
+    sinit (quorum_of (map n_id (sy_nodes σ0))) σ0 /\
+    run sys sys_event (sstep (quorum_of (map n_id (sy_nodes σ0)))) σ0 sched σ /\
+    In (t, a) (sy_hist σ) /\ length sched = 5%nat.
+Proof. exact Raft.ElectionExample.election_safety_nonvacuous. Qed.
+Print Assumptions election_safety_nonvacuous.
+
+(* [FULL] invariants E3/E4 at node level, for every settled node state and every event: every message that leaves a handler
+   carries the durable term and the sender's id, and a granted vote leaves only with exactly that vote durable *)
+Theorem messages_follow_durable_state :
+  forall s ev st s', n_msgs s = [] -> run_event s ev = Ret (st, s') -> msgs_ok s'.
+Proof. intros s ev st s' H R. destruct (run_event_sum s ev st s' H R) as [_ [M _]]. exact M. Qed.
+Print Assumptions messages_follow_durable_state.
+
+(* NOT YET PROVED (statements kept visible; listed in props/C02.json not_yet_proved):
+   clause 2  log_matching : in every reachable system state, two logs holding an entry with the same index and term are
+             identical up to that index (invariants L1, L2, LM, AM of DESIGN appendix A.1; needs election_safety);
+   clause 3  leader_completeness : an entry, once committed, is in the log (or snapshot) of every later leader;
+   clause 4  state_machine_safety : no two nodes hand different entries at the same index to TakeNewlyCommitted;
+   and the extension of election_safety to AddNode/RemoveNode (quorums of Members and Members +/- 1 intersect).
+   On the real code all four clauses are evaluated after every event by the monitors of the Go simulation. *)
